@@ -134,6 +134,16 @@ def nonce_episodes(tier, seed):
                 L2 += ["timeout c0", "timeout s0", "pump c0 s0 max=40", "timeout c0", "timeout s0", "pump c0 s0 max=40", "send c0 5", "send s0 6", "pump c0 s0 max=10",
                        "timeout c0", "timeout s0", "pump c0 s0 max=10", "send c0 5", "send s0 6", "pump c0 s0 max=10"]
                 E.append(dict(suite=s["name"], dir="-", ops=["dtls-loss"], lens=[], lines=L2, kind="nonce"))
+                # the last flight of the handshake is lost; data is sent; the flight is retransmitted; more data
+                for loser in ("s0", "c0"):
+                    other = "c0" if loser == "s0" else "s0"
+                    L3 = [s["ks"], s["kc"], "new s0 server keys=ks %s" % s["so"], "new c0 client keys=kc %s" % s["co"], "link c0 s0",
+                          "pump c0 s0 until=%s:DONE max=60" % loser, "flush %s" % loser, "dropall %s" % loser,
+                          "send %s %d" % (loser, rnd.randrange(1, 40)), "pump c0 s0 max=4",
+                          "timeout %s" % other, "pump c0 s0 max=12", "timeout %s" % loser, "pump c0 s0 max=12",
+                          "send %s %d" % (loser, rnd.randrange(1, 40)), "send %s 7" % other, "pump c0 s0 max=8",
+                          "timeout %s" % other, "timeout %s" % loser, "pump c0 s0 max=8", "send %s 9" % loser, "pump c0 s0 max=8"]
+                    E.append(dict(suite=s["name"], dir="-", ops=["dtls-lost-final-flight-" + loser], lens=[], lines=L3, kind="nonce"))
             L += ["close %s" % rnd.choice(["c0", "s0"]), "pump c0 s0 max=6", "send c0 3", "send s0 3", "pump c0 s0 max=6"]
             E.append(dict(suite=s["name"], dir="-", ops=["mixed-sends"], lens=[], lines=L, kind="nonce"))
     return E
